@@ -115,6 +115,7 @@ func (cl *Cluster) Crash(i int) {
 	if b == nil {
 		return
 	}
+	cl.Latency()
 	cl.Net.Kill(cl.Name(i))
 	b.cancel() // stops the dead process' background loops; no Close, nothing is flushed
 	for _, c := range b.Clients {
@@ -137,6 +138,7 @@ func (cl *Cluster) Stop(i int) {
 		return
 	}
 	b.Close()
+	cl.Latency()
 	cl.Net.Kill(cl.Name(i))
 	for _, c := range b.Clients {
 		c.Gone = true
@@ -156,6 +158,17 @@ func (cl *Cluster) LinkAll() {
 	}
 }
 
+// Latency lets one microsecond pass. Nothing a network does happens at the very
+// nanosecond of its cause: brokers stamp replicated entries with wall-clock
+// nanoseconds (an add wins a tie against a remove), so a zero-latency transport
+// would produce timestamp ties between an operation on one broker and the
+// reaction of another (delivery, peer-offline tombstones) that synchronised
+// clocks and a real network cannot produce. Called before every transport event.
+func (cl *Cluster) Latency() {
+	time.Sleep(time.Microsecond)
+	synctest.Wait()
+}
+
 // NetStep performs one transport event chosen by the tape; false when idle.
 func (cl *Cluster) NetStep() bool {
 	cl.Net.Canonicalise()
@@ -169,6 +182,7 @@ func (cl *Cluster) NetStep() bool {
 	if os.Getenv("VERIF_DEBUG_NET") != "" {
 		cl.C.Logf("   %s", cl.Net.Describe())
 	}
+	cl.Latency()
 	cl.Net.Do(e)
 	synctest.Wait()
 	return true
